@@ -80,11 +80,11 @@ OUTSIDE = [
 ]
 ASSUMPTIONS = ['the reference for buffer contents is kept at buffer-cell level (row-major or column-major Horner position of the written index), i.e. the layout is part of the model']
 CLAIM = dict(
- text='For ndarray_t with bounded buffer (fixed dim 2 and 3, capacity 8, row- and column-major; bounded dim <= 3, capacity 4, row- and column-major), the legacy hybrid_ndarray and fixed_ndarray, '
+ text='For ndarray_t with bounded buffer (fixed dim 2 and 3, capacity 8, row- and column-major; bounded dim <= 3, capacity 4, row- and column-major), ndarray_t with a FIXED buffer of 4 cells and a resizable bounded-dim shape (row- and column-major: only 4-element requests are accepted), the legacy hybrid_ndarray and fixed_ndarray, '
       'over every bounded history of {resize (in-capacity, over-capacity, dimension-changing), write, assign, copy-construct, self-assign} on two live objects the solver shows: resize returns true exactly when '
       'the request fits the dimension/capacity bounds; a refused resize leaves dim, shape, strides, buffer length and contents untouched; buffer length == product(shape); strides are the trailing products '
       '(row-major); offset() is the layout Horner form, so distinct in-shape indices address distinct cells inside the buffer; copies are independent of their source; every cell holds the last value written to it. '
-      'cast<unsigned char>/cast<long>/cast<float> and fixed->hybrid keep the shape and convert each value like static_cast. A write through mutable_flatten / mutable_reshape / mutable_slice / mutable_ref '
+      'cast<unsigned char>/cast<long>/cast<float> and fixed->hybrid keep the shape and convert each value like static_cast. dynamic_ndarray prepared through each of its three resize overloads and then assigned from an array of the same shape holds exactly the source. A write through mutable_flatten / mutable_reshape / mutable_slice / mutable_ref '
       'at a symbolic index changes exactly src[ref(i)] and reads back the written value.',
  note='Pending findings (excluded regions, see PENDING_FINDINGS): strides() of column-major arrays are the row-major ones; dynamic_ndarray = array of another shape. '
       'Bounded: K <= 2 (quick) / 3 (thorough), extents 1..4, <= 8 (4) cells. std::vector-backed kinds gave no verdict (OUTSIDE). Trusted: clang-14 -O1 lowering, engine/ll2c.py, CBMC (cadical back end).')
